@@ -237,6 +237,8 @@ UTF8String &UTF8String::Append(const UTF8String::storage_type &data, utf8helper:
 UTF8String& UTF8String::Transform(utf8helper::Transform func) {
   storage_type tmp(store);
   Clear();
+  /* the content is transformed, not what is written afterwards */
+  utf8helper::Transform prev = parser.func;
   parser.func = func;
   for (const codepoint& u : tmp) {
     char buf[5];
@@ -245,6 +247,7 @@ UTF8String& UTF8String::Transform(utf8helper::Transform func) {
       WriteByte(*b);
     }
   }
+  parser.func = prev;
   return *this;
 }
 
